@@ -10,6 +10,7 @@ import (
 
 // pureLibrary: effect-free library functions outside the observer packages.
 var pureLibrary = map[string]bool{
+	"github.com/pb33f/libopenapi/orderedmap.New": false, // constructor: fresh object, modelled heap untouched
 	"encoding/json.Marshal":                true, // a function of the value (maps are marshalled with sorted keys)
 	"strconv.FormatInt":                    true,
 	"strconv.FormatUint":                   true,
@@ -106,6 +107,16 @@ func (ex *Exec) libraryPostFacts(p *Path, full string, out []Value) {
 		ex.c.Trust("net/http: Client.Do returns a non-nil response with a non-nil Body when err == nil")
 		if len(out) == 2 {
 			p.Assume(implies(ex.isNilTerm(out[1]), not(ex.isNilTerm(out[0]))))
+		}
+	case "github.com/pb33f/libopenapi/orderedmap.New":
+		// constructor: a fresh, non-nil ordered map
+		ex.c.Trust("libopenapi orderedmap.New returns a new non-nil map")
+		if len(out) == 1 && ex.c.SortOf(out[0].Ty) == "Ref" {
+			p.Assume(not(ex.isNilTerm(out[0])))
+			for _, a := range p.allocs {
+				p.Assume("(not (= " + out[0].T + " " + a + "))")
+			}
+			p.allocs = append(p.allocs, out[0].T)
 		}
 	case "net/http.NewRequestWithContext":
 		ex.c.Trust("net/http: NewRequestWithContext returns a non-nil request with a non-nil Header when err == nil")
